@@ -40,17 +40,22 @@ pub fn opaque_identity(seed: u64) -> Result<(), simcore::Violation> {
     use crate::world::{Core, CtxPayload, PlainCtx, World, ERASED};
     use cglue::prelude::v1::*;
     use cglue::trait_group::{c_void, NoContext, Opaquable};
-    fn words<T>(t: &T) -> Vec<usize> {
-        let n = std::mem::size_of::<T>() / std::mem::size_of::<usize>();
+    fn words<T>(t: &T, limit: usize) -> Vec<usize> {
+        let n = (std::mem::size_of::<T>() / std::mem::size_of::<usize>()).min(limit);
         (0..n).map(|i| unsafe { (t as *const T as *const usize).add(i).read() }).collect()
     }
     let w = World::new();
     macro_rules! probe {
-        ($what:expr, $ty:ty, $from:expr) => {{
+        ($what:expr, $ty:ty, $from:expr) => {
+            probe!($what, $ty, $from, usize::MAX)
+        };
+        // `$n`: how many leading words hold values (vtable pointers, instance, context); what
+        // follows is temporary storage that starts out uninitialised and says nothing
+        ($what:expr, $ty:ty, $from:expr, $n:expr) => {{
             let c: $ty = From::from($from);
-            let (s1, a1, w1) = (std::mem::size_of_val(&c), std::mem::align_of_val(&c), words(&c));
+            let (s1, a1, w1) = (std::mem::size_of_val(&c), std::mem::align_of_val(&c), words(&c, $n));
             let o = Opaquable::into_opaque(c);
-            let (s2, a2, w2) = (std::mem::size_of_val(&o), std::mem::align_of_val(&o), words(&o));
+            let (s2, a2, w2) = (std::mem::size_of_val(&o), std::mem::align_of_val(&o), words(&o, $n));
             if s1 != s2 || a1 != a2 {
                 return Err(simcore::Violation::new("layout.opaque_differs", $what, format!("{}: the concrete form has size {} align {}, the opaque form size {} align {}", $what, s1, a1, s2, a2)));
             }
@@ -65,7 +70,7 @@ pub fn opaque_identity(seed: u64) -> Result<(), simcore::Violation> {
     probe!("Basic/Box/none", BasicBase<'static, CBox<'static, Solo>, NoContext>, solo(1));
     probe!("Basic/Box/arc", BasicBase<'static, CBox<'static, Solo>, CArc<CtxPayload>>, (solo(2), <CArc<CtxPayload>>::fresh()));
     probe!("ReadOnly/ArcSome/plain", ReadOnlyBase<'static, CArcSome<Solo>, PlainCtx>, (CArcSome::from(solo(3)), PlainCtx::fresh()));
-    probe!("Children/Box/arc_opaque", ChildrenBase<'static, CBox<'static, Solo>, CArc<c_void>>, (solo(4), <CArc<c_void>>::fresh()));
+    probe!("Children/Box/arc_opaque", ChildrenBase<'static, CBox<'static, Solo>, CArc<c_void>>, (solo(4), <CArc<c_void>>::fresh()), 6);
     probe!("GrpA/Box/arc_opaque", GrpA<'static, CBox<'static, A5>, CArc<c_void>>, (A5::new(Core::new(&w, ERASED, seed ^ 5, false)), <CArc<c_void>>::fresh()));
     probe!("GrpC/Box/none", GrpC<'static, CBox<'static, C7>, NoContext>, C7::new(Core::new(&w, ERASED, seed ^ 6, false)));
     probe!("GrpR/ArcSome/arc", GrpR<'static, CArcSome<R1>, CArc<CtxPayload>>, (CArcSome::from(R1::new(Core::new(&w, ERASED, seed ^ 7, false))), <CArc<CtxPayload>>::fresh()));
